@@ -43,7 +43,7 @@ PROPS["C10"] = {
     "pkgs": ["gbn"],
     "level": "exploration",
     "quick_budget": 50, "thorough_budget": 1500,
-    "rule": "hs-random: real NewClientConn/NewServerConn inside application retry loops (as grpc provides), tape-chosen start order incl. a late server, random drop/dup/delay of every packet during a fault prefix of 1..20 virtual seconds, 0..5 stale packets of every type (SYN with same/other N, SYNACK, ACK, NACK, DATA, PING, FIN) pre-queued per direction, N from 1..254; hs-patterns: complete enumeration of drop/duplicate/delay-past-timeout on each of the first six handshake packets, all singles and all pairs, both start orders. Safety oracle at every successful constructor return (server window is one a delivered SYN proposed, representable, and equals the client's when data flows); progress oracle at a bound after the last fault. The client's wire behaviour is monitored (a SYNACK only after an echo of its own window); hs-stray enumerates one stray packet of every type at six instants around the SYN / echo / SYNACK exchange." + SIG_RULE,
+    "rule": "hs-random: real NewClientConn/NewServerConn inside application retry loops (as grpc provides), tape-chosen start order incl. a late server, random drop/dup/delay of every packet during a fault prefix of 1..20 virtual seconds, 0..5 stale packets of every type (SYN with same/other N, SYNACK, ACK, NACK, DATA, PING, FIN) pre-queued per direction, N from 1..254; hs-patterns: complete enumeration of drop/duplicate/delay-past-timeout on each of the first six handshake packets, all singles and all pairs, both start orders. Safety oracle at every successful constructor return (server window is one a delivered SYN proposed, representable, and equals the client's when data flows); progress oracle at a bound after the last fault. The client's wire behaviour is monitored (a SYNACK only after an echo of its own window); hs-stray enumerates one stray packet of every type at six instants around the SYN / echo / SYNACK exchange. hs-stray also has a kind in which the transport's receive function returns an error to one side at each of the six instants." + SIG_RULE,
     "assumptions": ["progress bound = last fault + 120 x handshake timeout + 4 x (ping+pong) + 5 virtual minutes; the defects it is meant to catch are unbounded", "stale SYNs model an earlier connection of the same session and may carry another N"],
     "components": GBN_COMPONENTS,
     "expected_probes": ["c10.attempt-failed-with-error", "c10.reconnected"],
@@ -103,7 +103,7 @@ PROPS["C20"] = {
     "pkgs": ["gbn"],
     "level": "exploration",
     "quick_budget": 50, "thorough_budget": 1200,
-    "rule": "model-sequential: histories of 20..220 events over {Sent(DATA seq), Resent(DATA seq), Received(ACK seq), Sent(SYN, resent?), Received(SYN|SYNACK), packets without timing information} on 2..7 reused sequence numbers, separated by virtual delays of 0, milliseconds, seconds, 0..5 x the current timeout, or the boost interval +-1 ms; multipliers 1..20, update frequencies 1..300, boost 1..300 %, static mode with arbitrary values; after every event GetResendTimeout/GetHandshakeTimeout are compared with a reference model written from the property statement. invariants-concurrent: three tasks (send loop, receive loop, reader/setter) drive one manager; floor, static-constant and no-deadlock invariants. conn-karn: the manager inside a live adaptive-mode pair with a lossy link and transport write calls that return 0-2 s late; at every ACK for a packet transmitted more than once the base resend timeout must be unchanged by its processing." + SIG_RULE,
+    "rule": "model-sequential: histories of 20..220 events over {Sent(DATA seq), Resent(DATA seq), Received(ACK seq), Sent(SYN, resent?), Received(SYN|SYNACK), packets without timing information} on 2..7 reused sequence numbers, separated by virtual delays of 0, milliseconds, seconds, 0..5 x the current timeout, or the boost interval +-1 ms; multipliers 1..20, update frequencies 1..300, boost 1..300 %, static mode with arbitrary values; after every event GetResendTimeout/GetHandshakeTimeout are compared with a reference model written from the property statement. invariants-concurrent: three tasks (send loop, receive loop, reader/setter) drive one manager; floor, static-constant and no-deadlock invariants. conn-karn: the manager inside a live adaptive-mode pair with a lossy link and transport write calls that return 0-2 s late; at every ACK for a packet transmitted more than once the base resend timeout must be unchanged by its processing. conn-karn also bounds every sample taken from a packet that was transmitted once by multiplier x its real round trip (transmission to ACK delivery on the wire)." + SIG_RULE,
     "assumptions": ["the reference model encodes: timeout = max(1 s, multiplier x last eligible RTT) x (1 + boost x k), k incremented by a DATA resend at most once per base-timeout interval and reset by an eligible sample, a sample is eligible only if its transmission was never followed by a resend of the same number, recomputation every `frequency` eligible samples (and on the first one)", "comparison tolerance 1e-5 relative + 1 us (float32 arithmetic in the boost)"],
     "components": {"gbn/timeout_manager.go (TimeoutManager, TimeoutBooster)": "real code, instrumented", "clock": "virtual (synctest bubble)", "rest of gbn": "not involved"},
     "expected_probes": ["c20.ack-of-resent-packet", "c20.sample-taken", "c20.ends-boosted"],
@@ -116,7 +116,7 @@ PROPS["C18"] = {
     "race": True,
     "level": "exploration",
     "quick_budget": 70, "thorough_budget": 1800,
-    "rule": "Race-detector build of the instrumented gbn package under the simulator (scheduler hand-offs hidden from the detector, so only the program's own happens-before edges count). conn-concurrent: real connection pair, keepalive/resend periods that are small multiples of the link latency so that ticks and packet arrivals coincide, 1-2 senders + receiver + timeout-setter per endpoint, 1-2 concurrent Close callers per endpoint. ticker-direct and timeoutmgr-direct: the ticker and the timeout manager driven by three tasks with the connection's call patterns. Violations: any race report whose two accessing frames are not both harness code, any task panic, tasks that never finish." + SIG_RULE,
+    "rule": "Race-detector build of the instrumented gbn package under the simulator (scheduler hand-offs hidden from the detector, so only the program's own happens-before edges count). conn-concurrent: real connection pair, keepalive/resend periods that are small multiples of the link latency so that ticks and packet arrivals coincide, 1-2 senders + receiver + timeout-setter per endpoint, 1-2 concurrent Close callers per endpoint. ticker-direct and timeoutmgr-direct: the ticker and the timeout manager driven by three tasks with the connection's call patterns. Violations: any race report whose two accessing frames are not both harness code, any task panic, tasks that never finish. dies-at-birth: the first packet of the data phase (FIN, late handshake packet, garbage) is already waiting when the handshake completes, so that the connection closes itself while its constructor is still starting the loops." + SIG_RULE,
     "assumptions": ["the race detector decides data races by happens-before, so one interleaving of two unsynchronised accesses suffices; interleavings are needed for the panics and deadlocks", "scheduling points are channel ops, locks, wait groups, atomics, spawns and sleeps; plain memory accesses between them are not interleaved (the detector covers those)"],
     "components": GBN_COMPONENTS,
     "expected_probes": [],
@@ -128,7 +128,7 @@ PROPS["C07"] = {
     "pkgs": ["gbn", "mailbox"],
     "level": "fault_enumeration",
     "quick_budget": 70, "thorough_budget": 1800,
-    "rule": "Enumerated: gbn.Deserialize on every byte string of length 0..3 and (thorough: all 2^32; quick: first byte a packet type, 0x00 or 0xFF) 4-byte strings; all 256 SYN window values proposed by a scripted conforming client to a real server, plain and restarted handshake, followed by data in both directions. Sampled: garbage (every type byte x lengths 0..6, all ACK/NACK/SYN byte values, DATA with arbitrary header bytes, truncated/extended/bit-flipped captured packets, random longer strings) injected toward either live endpoint in every phase (before/inside the handshake, idle, k packets outstanding, mid-resend), followed by a conforming exchange. Mailbox part: MsgData.Deserialize on every byte string of length 0..3 and on 5-byte headers with boundary length fields; stripJSONWrapper on a grammar of envelopes; garbage / truncated / extended / mutated Noise handshake acts and encrypted records against real parties in every configuration; forged messages injected by the stub relay into live full-stack sessions. Oracle: no task panics (caught at the task root with stack); white-box window invariants after each injection (s = n+1 >= 2, base/top/recvSeq < s, size <= n). gbn-window-forgery enumerates every forged ACK/NACK value against every window state of the first pass through the sequence numbers (retransmission buffer filled only for packets in flight) for s in 2..40 and larger samples." + SIG_RULE + " For enumerated sub-batches a case is one first byte / one SYN value.",
+    "rule": "Enumerated: gbn.Deserialize on every byte string of length 0..3 and (thorough: all 2^32; quick: first byte a packet type, 0x00 or 0xFF) 4-byte strings; all 256 SYN window values proposed by a scripted conforming client to a real server, plain and restarted handshake, followed by data in both directions. Sampled: garbage (every type byte x lengths 0..6, all ACK/NACK/SYN byte values, DATA with arbitrary header bytes, truncated/extended/bit-flipped captured packets, random longer strings) injected toward either live endpoint in every phase (before/inside the handshake, idle, k packets outstanding, mid-resend), followed by a conforming exchange. Mailbox part: MsgData.Deserialize on every byte string of length 0..3 and on 5-byte headers with boundary length fields; stripJSONWrapper on a grammar of envelopes; garbage / truncated / extended / mutated Noise handshake acts and encrypted records against real parties in every configuration; forged messages injected by the stub relay into live full-stack sessions. Oracle: no task panics (caught at the task root with stack); white-box window invariants after each injection (s = n+1 >= 2, base/top/recvSeq < s, size <= n). gbn-window-forgery enumerates every forged ACK/NACK value against every window state of the first pass through the sequence numbers (retransmission buffer filled only for packets in flight) for s in 2..40 and larger samples. gbn-nonfinal-flood: 8 MiB of DATA packets without the final-chunk flag delivered in step with the expected sequence number (to server / client, keepalive on / off): must be ignored or fail the connection, not be buffered without limit." + SIG_RULE + " For enumerated sub-batches a case is one first byte / one SYN value.",
     "assumptions": ["GBN packets are unauthenticated: a forged but well-formed ACK/DATA may legitimately disturb the stream (counted by a probe); only crashes and bookkeeping outside the valid range are violations"],
     "components": dict(GBN_COMPONENTS, **{"mailbox package (framing, Noise, conns, Server/Client)": "real code, instrumented copy of the working tree", "hashmail relay": "stub that also forges messages"}),
     "expected_probes": ["c07.deserialize-cases", "c07.scripted-exchange-complete", "c07.server-refused-window", "c07.msgdata-cases", "c07.json-cases", "c05.transfer-complete-after-heal"],
